@@ -508,8 +508,8 @@ def gen_bracket(rng, span, n, style):
     if q < 0.4:
         i = rng.randint(-n - 1, n)
         txt = str(i)
-        if rng.random() < 0.08:
-            txt = rng.choice(['+%d' % abs(i), '0%d' % abs(i) if False else str(i)])
+        if rng.random() < 0.08 and i >= 0:
+            txt = '+%d' % i
         return ('pi', txt, w)
     if q < 0.9:
         def e():
@@ -539,7 +539,7 @@ def gen_ast(rng, span, names, depth, style, opts):
         return ('neg', gen_ast(rng, span, names, depth - 1, style, opts))
     if r < 0.97:
         f = rng.choice(['lag', 'lead', 'diff', 'dlog', 'exp', 'log'])
-        arg = ('var', rng.choice(names)) if rng.random() < 0.7 else gen_ast(rng, span, names, depth - 1, 'none' if style == 'none' else style, opts)
+        arg = ('var', rng.choice(names)) if rng.random() < 0.75 else gen_ast(rng, span, names, max(depth - 1, 1), style, opts)
         if f in ('exp', 'log'):
             return ('call', f, arg, None, None)
         lo = 1 if f in ('diff', 'dlog') else -n - 1
@@ -725,9 +725,20 @@ def gen(rng, tier):
 
 
 # =========================================================================== direct oracle (the property statement)
+class _OutOfScope(Exception):
+    """the statement speaks about helpers applied to 1-D arrays only"""
+
+
+def _need_1d(x):
+    import numpy as np
+    if not isinstance(x, np.ndarray) or x.ndim != 1:
+        raise _OutOfScope()
+    return x
+
+
 def _ref_lag(x, p=1, *, fill_value=float('nan')):
     import numpy as np
-    x = np.asarray(x)
+    x = _need_1d(x)
     n = len(x)
     out = np.empty(n, dtype=x.dtype)
     for i in range(n):
@@ -741,9 +752,9 @@ def _ref_lead(x, p=1, *, fill_value=float('nan')):
 
 def _ref_diff(x, d=1, *, fill_value=float('nan'), zero_identity=False):
     import numpy as np
-    x = np.asarray(x)
+    x = _need_1d(x)
     if d < 0:
-        raise NotImplementedError
+        raise _OutOfScope()
     if d == 0 and zero_identity:
         return x
     n = len(x)
@@ -757,7 +768,7 @@ def _ref_ns(case, zero_identity=False):
     import numpy as np
     ns = {'exp': np.exp, 'log': np.log, 'lag': _ref_lag, 'lead': _ref_lead,
           'diff': lambda x, d=1, *, fill_value=float('nan'): _ref_diff(x, d, fill_value=fill_value, zero_identity=zero_identity),
-          'dlog': lambda x, d=1, *, fill_value=float('nan'): _ref_diff(np.log(x), d, fill_value=fill_value, zero_identity=zero_identity)}
+          'dlog': lambda x, d=1, *, fill_value=float('nan'): _ref_diff(np.log(_need_1d(x)), d, fill_value=fill_value, zero_identity=zero_identity)}
     for name, vals in case['vars']:
         ns[name] = np.array([lib.unhex(v) for v in vals], dtype=float)
     return ns
@@ -773,6 +784,8 @@ def _ref_eval(case, mode, zero_identity=False):
         with warnings.catch_warnings():
             warnings.simplefilter('ignore')
             return _canon(eval(text, {'__builtins__': {'True': True}}, _ref_ns(case, zero_identity)))
+    except _OutOfScope:
+        return ['oos']
     except NameError as e:
         return ['raise', 'AttributeError', e.name, True]
     except Exception as e:
@@ -801,7 +814,7 @@ def oracle_expr(case, obs, fails):
         bad('C16|eval|helper-table-altered', 'eval(%r) altered fsic.functions.builtins' % case['expr'])
     got = obs['eval']
     ref = _ref_eval(case, 'ref')
-    if got == ref:
+    if got == ref or ref == ['oos']:           # helper applied to something that is not a 1-D array / d < 0: outside the statement
         return
     has_tick, nonlit, stop = _risky(case)
     if has_tick and nonlit and got[:2] == ['raise', 'ValueError']:
